@@ -12,6 +12,8 @@ import (
 	"fmt"
 	"net/http"
 	"os"
+	"runtime"
+	"strconv"
 	"strings"
 	"sync"
 	"testing"
@@ -38,6 +40,9 @@ type c14Case struct {
 	ProbationMs int           `json:"probation_ms"`
 	BootKills   []int         `json:"bootkills"` // ordinals of Worker.FuncLocations calls whose machine dies while booting
 	E2E         []int         `json:"e2e"`       // mode e2e: a real session runs one task per entry, with that Procs pragma
+	MachComb    bool          `json:"machcomb"`  // mode e2e: machine combiners on, the program is a Reduce over E2E[0] shards
+	KillCall    string        `json:"killcall"`  // mode e2e: the machine serving the KillN'th call of this RPC method dies at that call
+	KillN       int           `json:"killn"`
 }
 
 func c14Place(c *c14Case) vtr.Rec {
@@ -84,6 +89,7 @@ type c14Live struct {
 	pending int
 	mprocs  interface{} // procs per machine, from the last MgrStart
 	auto    bool        // requests come from a real session: number them as they are offered
+	own     int         // goroutine of the manager under observation
 	nextRid int
 }
 
@@ -110,10 +116,16 @@ func (l *c14Live) hook(ev string, args ...interface{}) {
 	if len(ev) < 3 || ev[:3] != "Mgr" {
 		return
 	}
+	gid := c14Gid()
 	l.mu.Lock()
 	defer l.mu.Unlock()
+	if ev == "MgrOffer" && l.own == 0 {
+		// the manager under observation is the one that receives the first offer: managers of earlier
+		// sessions that are still winding down (their minute ticker also passes through MgrSelect) get none
+		l.own = gid
+	}
 	l.seq++
-	r := vtr.Rec{"ev": ev, "seq": l.seq}
+	r := vtr.Rec{"ev": ev, "seq": l.seq, "gid": gid}
 	switch ev {
 	case "MgrSelect":
 		r["offering"] = args[0].(bool)
@@ -180,6 +192,32 @@ func (l *c14Live) hook(ev string, args ...interface{}) {
 	}
 }
 
+// c14Gid returns the id of the calling goroutine (each machineManager.Do loop is one goroutine).
+func c14Gid() int {
+	var buf [64]byte
+	n := runtime.Stack(buf[:], false)
+	f := strings.Fields(string(buf[:n]))
+	if len(f) < 2 {
+		return -1
+	}
+	id, _ := strconv.Atoi(f[1])
+	return id
+}
+
+// events returns the recorded events without those of other managers' loops.
+func (l *c14Live) events() []vtr.Rec {
+	l.mu.Lock()
+	defer l.mu.Unlock()
+	out := []vtr.Rec{}
+	for _, r := range l.w {
+		if g, ok := r["gid"]; ok && l.own != 0 && g.(int) != l.own {
+			continue
+		}
+		out = append(out, r)
+	}
+	return out
+}
+
 func (l *c14Live) emit(r vtr.Rec) {
 	l.mu.Lock()
 	l.seq++
@@ -230,6 +268,18 @@ var c14Func = bigslice.Func(func(procs []int) bigslice.Slice {
 	return bigslice.Cogroup(ss...)
 })
 
+// c14ReduceFunc: a Reduce whose map side runs in nshard tasks (with machine combiners: one shared combiner per
+// machine that the reduce side asks each machine to commit before it reads).
+var c14ReduceFunc = bigslice.Func(func(nshard int) bigslice.Slice {
+	keys, vals := make([]int, 40*nshard), make([]int, 40*nshard)
+	for i := range keys {
+		keys[i], vals[i] = i%17, 1
+	}
+	s := bigslice.Const(nshard, keys, vals)
+	s = bigslice.Map(s, func(k, v int) (int, int) { return k, v })
+	return bigslice.Reduce(s, func(a, b int) int { return a + b })
+})
+
 // c14RunE2E records the machine manager's events while a real session runs tasks with Procs pragmas (the
 // executor's own Offer / Done calls, on every exit path of bigmachineExecutor.Run).
 func c14RunE2E(c *c14Case) (rec vtr.Rec) {
@@ -242,9 +292,26 @@ func c14RunE2E(c *c14Case) (rec vtr.Rec) {
 	system.KeepalivePeriod = 100 * time.Millisecond
 	system.KeepaliveTimeout = 400 * time.Millisecond
 	system.KeepaliveRpcTimeout = 100 * time.Millisecond
-	sess := Start(Bigmachine(system), Parallelism(c.MaxP), MaxLoad(c.MaxLoad))
-	ctx, cancel := context.WithTimeout(context.Background(), 60*time.Second)
-	_, err := sess.Run(ctx, c14Func, c.E2E)
+	opts := []Option{Bigmachine(system), Parallelism(c.MaxP), MaxLoad(c.MaxLoad)}
+	if c.MachComb {
+		opts = append(opts, MachineCombiners)
+	}
+	if c.KillCall != "" {
+		cl := system.HTTPClient()
+		cl.Transport = &c14BootKiller{sys: system, base: cl.Transport, at: []int{c.KillN}, suffix: c.KillCall}
+	}
+	sess := Start(opts...)
+	to := 60 * time.Second
+	if c.KillCall != "" {
+		to = 25 * time.Second // (a session with machine combiners need not survive the loss; only the ledger is judged)
+	}
+	ctx, cancel := context.WithTimeout(context.Background(), to)
+	var err error
+	if c.MachComb {
+		_, err = sess.Run(ctx, c14ReduceFunc, c.E2E[0])
+	} else {
+		_, err = sess.Run(ctx, c14Func, c.E2E)
+	}
 	cancel()
 	es := ""
 	if err != nil {
@@ -257,11 +324,11 @@ func c14RunE2E(c *c14Case) (rec vtr.Rec) {
 	case <-done:
 	case <-time.After(10 * time.Second):
 	}
-	l.mu.Lock()
-	rec["events"] = append([]vtr.Rec{}, l.w...)
-	l.mu.Unlock()
+	rec["events"] = l.events()
 	rec["stalled"] = false
 	rec["runerr"] = es
+	rec["ended"] = true // Run has returned: every task of the run has ended
+	rec["mayfail"] = c.KillCall != ""
 	return
 }
 
@@ -275,10 +342,15 @@ type c14BootKiller struct {
 	base http.RoundTripper
 	at   []int
 	n    int
+	suffix string // RPC method; default Worker.FuncLocations
 }
 
 func (k *c14BootKiller) RoundTrip(req *http.Request) (*http.Response, error) {
-	if !strings.HasSuffix(req.URL.Path, "Worker.FuncLocations") {
+	suffix := k.suffix
+	if suffix == "" {
+		suffix = "Worker.FuncLocations"
+	}
+	if !strings.HasSuffix(req.URL.Path, suffix) {
 		return k.base.RoundTrip(req)
 	}
 	k.mu.Lock()
@@ -468,10 +540,10 @@ func c14RunLive(c *c14Case) (rec vtr.Rec) {
 	case <-done:
 	case <-time.After(10 * time.Second):
 	}
-	l.mu.Lock()
-	rec["events"] = append([]vtr.Rec{}, l.w...)
-	l.mu.Unlock()
+	rec["events"] = l.events()
 	rec["stalled"] = stalled
+	rec["ended"] = false
+	rec["mayfail"] = false
 	return
 }
 
